@@ -221,7 +221,8 @@ def cases(tier):
     for bname, bspec in bm:
         for be in ('cvxpy', 'mosek'):
             for fi in range(len(FRAGMENTS)):
-                if tier == 'quick' and be == 'mosek' and bname in ('composite',):
+                if tier == 'quick' and ((be == 'mosek' and bname in ('composite', 'gd-cons', 'quad'))
+                                        or (be == 'cvxpy' and bname in ('linop', 'composite'))):
                     continue
                 cs.append(dict(id="%s-%s-A%d" % (bname, be, fi), bname=bname, bspec=bspec, backend=be, k=k, forced=[fi],
                                input_zero_tests='generic', output_branches='first', verbose2=fi % 2))
